@@ -312,7 +312,7 @@ impl Prop for C07 {
                     gen: enum_small,
                 },
             },
-            Stage { name: "random", kind: StageKind::Random { strategy: strat, cases: tier.pick(6_000, 100_000) } },
+            Stage { name: "random", kind: StageKind::Random { strategy: strat, cases: tier.pick(20_000, 120_000) } },
         ]
     }
     fn check(case: &Case, obs: &mut Obs) -> Verdict {
